@@ -132,6 +132,11 @@ def conf_s(draw, pid, tier):
     mods = draw(st.sampled_from([["iauth_class", "iauth_xquery"]] * 7 + [["iauth_xquery"]] * 2 + [["iauth"]]))
     nsv = draw(st.integers(0, 4))
     names = draw(st.permutations(SVC_POOL))[:nsv]
+    if pid in ("C02", "C03", "C05", "C06", "default") and draw(st.integers(0, 13)) == 0:
+        # large service tables: the per-client bookkeeping is one bit per table slot in 32-bit masks, so the
+        # daemon supports 32 services (proto.MAX_SERVICES) and refuses the rest with an error
+        nsv = draw(st.sampled_from([6, 9, 17, 31, 32, 32, 33, 34, 40]))
+        names = list(draw(st.permutations(["s%02d.ex" % i for i in range(nsv - 2)] + ["alpha.ex", "Zeta.ex"])))
     protos = proto.PROTOCOLS + (("bogus",) if pid in ("C06", "default") else ())
     services = [[n, draw(st.sampled_from(protos))] for n in names]
     timeout = draw(st.sampled_from([0, 30, 30]))
